@@ -12,7 +12,7 @@ from fractions import Fraction
 import numpy as np
 from . import common
 
-THEOREM_FILES = ['NumqiProps/C06.lean']
+THEOREM_FILES = ['NumqiProps/C06.lean', 'NumqiProps/C06Sdp.lean', 'NumqiProps/C17.lean']     # C17.lean: dicke_reduction_eq etc., used by pureb_has_extension
 LEVEL = 'proof'
 RULE = ('random density matrices and random Hermitian (non-positive) directions in dims (2,2),(2,3),(3,3),(2,4), single / batched / '
         'explicit dm_norm code paths; Gaussian-integer Hermitian matrices for the exact index-map tie; LP rows for integer kets; real LP '
@@ -251,6 +251,20 @@ def tie_interpolation(ctx):
                 else:
                     ctx.agree(op, op)
 
+    # dm_to_gellmann_norm with one and two leading batch axes (documented "support batch"), non-contiguous layout included
+    for n, lead in ((2, (3,)), (3, (2, 2)), (4, (2, 1, 2))):
+        hs = np.stack([rand_herm_int(rng, n) + (i % 3) * np.eye(n) for i in range(int(np.prod(lead)))]).reshape(*lead, n, n).astype(np.complex128)
+        for tag, arr in (('c', hs), ('t', np.ascontiguousarray(np.swapaxes(hs, -1, -2)).swapaxes(-1, -2))):
+            got = guarded(lambda: np.asarray(numqi.gellmann.dm_to_gellmann_norm(arr)))
+            flat = hs.reshape(-1, n, n)
+            opsb = [f'C06 gmnorm2 {n} {gints(h)}' for h in flat]
+            mob = common.run_model(opsb)
+            for i, (op, mo) in enumerate(zip(opsb, mob)):
+                if isinstance(got, str) or got.shape != lead:
+                    ctx.count('gmnorm2'); ctx.disagree(op + f' [batch {lead} {tag}]', mo, got if isinstance(got, str) else f'shape {got.shape}')
+                else:
+                    _close(ctx, op, float(got.reshape(-1)[i]) ** 2, qi(mo).real, 1e-12, 'gmnorm2', abs(qi(mo).real))
+
 
 def tie_cha(ctx):
     """the LP data of CHABoundaryBagging for integer kets; the LP point of real solutions against the model's mixture"""
@@ -314,6 +328,324 @@ def tie_cha(ctx):
 
 
 
+def _rat_sq(v, den):
+    x = float(v) ** 2 * den
+    n = round(x)
+    if abs(x - n) > 1e-9 or v < 0:
+        return 'nonrational'
+    fr = Fraction(n, den)
+    return f'{fr.numerator}/{fr.denominator}'
+
+
+def tie_dicke(ctx):
+    """the Dicke-basis reduction behind PureBosonicExt (dicke.py): index table, assembly of the reduced matrix (numpy and torch
+    branch), PureBosonicExt.forward on integer coefficients, and the Gell-Mann distance used as its loss — all exact"""
+    import numqi, torch
+    D = numqi.dicke
+    rng = np.random.default_rng(ctx.np_seed + 3)
+    ops, impl = [], []
+    grid = [(1, 2), (2, 2), (3, 2), (2, 3), (3, 3), (1, 3)] + ([] if ctx.quick() else [(4, 2), (5, 2), (4, 3), (2, 4), (3, 4)])
+    for n, d in grid:
+        ops.append(f'C06 dnum {n} {d}'); impl.append(guarded(lambda: str(int(D.get_dicke_number(n, d)))))
+        def f():
+            out = []
+            for i0, i1, val in D.get_partial_trace_ABk_to_AB_index(n, d):
+                out.append(';'.join(f'{int(i)}:{int(j)}:{_rat_sq(v, n * n)}' for i, j, v in zip(i0, i1, val)))
+            return '|'.join(out)
+        ops.append(f'C06 bij {n} {d}'); impl.append(guarded(f))
+    # the coefficient tensor the irrep-block SDP uses for qubit B (group/symext.py:222) is this table (theorem sdp_boson_block_psd_in_kext
+    # assumes exactly that): every entry of coeffB[i,j,r,s], squared, against the model's table for (r,s); zero elsewhere
+    for n in ((1, 2, 3) if ctx.quick() else (1, 2, 3, 4, 5, 6)):
+        def ft(n=n):
+            cf, ml = numqi.group.symext.get_symmetric_extension_irrep_coeff(2, n)
+            if len(cf) != 1 or tuple(ml) != (1,) or cf[0].shape != (n + 1, n + 1, 2, 2):
+                return f'error:blocks {[c.shape for c in cf]} multiplicities {ml}'
+            c = np.asarray(cf[0])
+            if np.abs(c.imag).max() != 0 or c.real.min() < 0:
+                return 'error:not real non-negative'
+            out = []
+            for r in range(2):
+                for s_ in range(2):
+                    m = c[:, :, r, s_].real
+                    if r == s_:
+                        if np.count_nonzero(m - np.diag(np.diag(m))):
+                            return 'error:off-diagonal entry in a diagonal table'
+                        out.append(';'.join(f'{i}:{i}:{_rat_sq(m[i, i], n * n)}' for i in range(n + 1)))
+                    else:
+                        out.append(';'.join(f'{i}:{j}:{_rat_sq(m[i, j], n * n)}' for i in range(n + 1) for j in range(n + 1) if m[i, j] != 0))
+            return '|'.join(out)
+        ops.append(f'C06 bij {n} 2'); impl.append(guarded(ft))
+    for n, d in [(0, 2), (2, 1)]:
+        ops.append(f'C06 bij {n} {d}'); impl.append(guarded(lambda: str(D.get_partial_trace_ABk_to_AB_index(n, d))))
+    gl = lambda a: ';'.join(f'{int(round(z.real))},{int(round(z.imag))}' for z in np.asarray(a, dtype=np.complex128).reshape(-1))
+    rg = lambda shape: rng.integers(-4, 5, size=shape) + 1j * rng.integers(-4, 5, size=shape)
+    for dimA, dimB, k in ([(2, 2, 2), (3, 2, 3), (2, 3, 2), (2, 2, 1)] if ctx.quick() else [(a, b, k) for a in (1, 2, 3) for b in (2, 3) for k in (1, 2, 3)]):
+        L = D.get_dicke_number(k, dimB)
+        # the real index lists with integer weights: numpy and torch branch of partial_trace_ABk_to_AB
+        Bij = D.get_partial_trace_ABk_to_AB_index(k, dimB)
+        wts = [rg((len(x[0]),)) for x in Bij]
+        tline = '|'.join(';'.join(f'{int(i)}:{int(j)}:{int(w.real)},{int(w.imag)}' for i, j, w in zip(x[0], x[1], ww)) or '-' for x, ww in zip(Bij, wts))
+        psi = rg((dimA, L))
+        tabs = [(x[0], x[1], ww) for x, ww in zip(Bij, wts)]
+        op = f'C06 asm {dimA} {dimB} {L} {tline} {gl(psi)}'
+        ops.append(op); impl.append(guarded(lambda: gl(D.partial_trace_ABk_to_AB(psi, tabs))))
+        ttabs = [(torch.tensor(a, dtype=torch.int64), torch.tensor(b, dtype=torch.int64), torch.tensor(v, dtype=torch.complex128)) for a, b, v in tabs]
+        ops.append(op); impl.append(guarded(lambda: gl(D.partial_trace_ABk_to_AB(torch.tensor(psi, dtype=torch.complex128), ttabs).numpy())))
+        # PureBosonicExt.forward: the real object, its parameter vector and table values replaced by integers
+        v = rg((dimA * L,))
+
+        def g():
+            model = numqi.entangle.PureBosonicExt(dimA, dimB, k)
+            ints = [rg((len(x[0]),)) for x in model.Bij]
+            model.Bij = [[x[0], x[1], torch.tensor(w, dtype=torch.complex128)] for x, w in zip(model.Bij, ints)]
+
+            class Stub(torch.nn.Module):
+                def forward(self_):
+                    return torch.tensor(v, dtype=torch.complex128)
+            model.manifold = Stub()
+            model.set_expectation_op(np.eye(dimA * dimB))
+            with torch.no_grad():
+                model()
+            tl = '|'.join(';'.join(f'{int(i)}:{int(j)}:{int(w.real)},{int(w.imag)}' for i, j, w in zip(x[0].tolist(), x[1].tolist(), ww)) or '-' for x, ww in zip(model.Bij, ints))
+            return tl, gl(model.dm_torch.numpy())
+        r = guarded(g)
+        if isinstance(r, str):
+            ops.append(f'C06 purebred {dimA} {dimB} {L} - {gl(v)}'); impl.append(r)
+        else:
+            ops.append(f'C06 purebred {dimA} {dimB} {L} {r[0]} {gl(v)}'); impl.append(r[1])
+    # Gell-Mann distance (loss of both inner models), numpy and torch branch; exact halves of integers
+    for n in (2, 3, 4, 6):
+        A, Bm = rg((n, n)), rg((n, n))
+        op = f'C06 dist2 {n} {gl(A)} {gl(Bm)}'
+        for tag, f in (('numpy', lambda: numqi.gellmann.get_density_matrix_distance2(A.astype(np.complex128), Bm.astype(np.complex128))),
+                       ('torch', lambda: numqi.gellmann.get_density_matrix_distance2(torch.tensor(A, dtype=torch.complex128), torch.tensor(Bm, dtype=torch.complex128)).item())):
+            def h(f=f):
+                fr = Fraction(float(f()))
+                return f'{fr.numerator}/{fr.denominator},0/1'
+            ops.append(op); impl.append(guarded(h))
+    # bisection bookkeeping of get_boundary: step function hf(x) = [x >= t], dyadic data (all midpoints exact)
+    from numqi.entangle._misc import _ree_bisection_solve
+    for _ in range(12 if ctx.quick() else 60):
+        x0 = float(rng.integers(0, 4)) / 4
+        x1 = x0 + float(rng.integers(1, 9)) / 4
+        j = int(rng.integers(1, 12)); cden = int(rng.choice([1, 3, 5, 7]))
+        xtol = cden / 2.0 ** j
+        t = x0 + (x1 - x0) * float(rng.integers(0, 1025)) / 1024
+        ratio = Fraction(x1 - x0) / Fraction(xtol)
+        if abs(math.log2(max(2, ratio)) - round(math.log2(max(2, ratio)))) < 1e-9 and ratio.denominator != 1:
+            continue
+        def b():
+            xi, hist = _ree_bisection_solve(lambda x: 1.0 if x >= t else 0.0, x0, x1, xtol, 0.5, False)
+            fr = Fraction(float(xi))
+            return f'{len(hist)} {fr.numerator}/{fr.denominator}'
+        ops.append(f'C06 bisect {fbits(x0)} {fbits(x1)} {ratio.numerator} {ratio.denominator} {fbits(t)}'); impl.append(guarded(b))
+    model = common.run_model(ops)
+    common.compare(ctx, ops, impl, model)
+
+
+def _recording_parameter(param, log):
+    """make a cvxpy Parameter record (copies of) every value assigned to it; nothing else about it changes"""
+    import cvxpy
+    base = cvxpy.Parameter
+
+    class Rec(base):
+        @property
+        def value(self):
+            return base.value.fget(self)
+
+        @value.setter
+        def value(self, v):
+            log.append(None if v is None else np.array(v, copy=True)); base.value.fset(self, v)
+    param.__class__ = Rec
+
+
+def _herm_int_dominant(rng, n, total=1 << 16):
+    """Gaussian-integer Hermitian, positive definite (diagonally dominant), all entries pairwise distinct, trace = `total` (a power of
+    two: `M/total` and every entry of it are exact doubles)"""
+    while True:
+        off = rng.permutation(np.arange(1, 4 * n * n))[: n * (n - 1)]
+        m = np.zeros((n, n), dtype=np.complex128)
+        k = 0
+        for i in range(n):
+            for j in range(i + 1, n):
+                m[i, j] = complex(int(off[k]), -int(off[k + 1])); m[j, i] = m[i, j].conjugate(); k += 2
+        d = rng.permutation(np.arange(-40, 41))[:n]
+        d = d - d.sum() // n
+        diag = total // n + d
+        diag[0] += total - diag.sum()
+        if len(set(diag.tolist())) == n:
+            for i in range(n):
+                m[i, i] = diag[i]
+            return m
+
+
+def _qilist(s):
+    out = []
+    for e in s.split(';'):
+        a, b = e.split(',')
+        out.append((frac(a), frac(b)))
+    return out
+
+
+def tie_symext(ctx):
+    """the index layer of the two SDP routines of the hierarchy (entangle/symext.py: is_ABk_symmetric_ext,
+    get_ABk_symmetric_extension_boundary, _ABk_symmetric_extension_setup, get_cvxpy_transpose0213_indexing) against NumqiModel/SymExt.lean
+    (shared ops of Driver/SymExtOps.lean).  The SDP itself is replaced by a stub where the data entering it is to be captured; the
+    expressions handed to the solver are evaluated at chosen integer / dyadic points."""
+    import numqi, cvxpy
+    S = numqi.entangle.symext
+    rng = np.random.default_rng(ctx.np_seed + 5)
+    ops, impl = [], []
+    # (a) get_cvxpy_transpose0213_indexing, both call forms
+    for n0, n1, n2, n3 in [(2, 3, None, None), (3, 1, None, None), (2, 3, 2, 3), (2, 2, 3, 4), (3, 4, 2, 1), (1, 1, 1, 1)] + \
+            ([] if ctx.quick() else [(3, 6, None, None), (2, 10, None, None), (4, 3, 2, 5)]):
+        a = (n0, n1) if n2 is None else (n0, n1, n2, n3)
+        ops.append(f'C06 idx0213 {n0} {n1} {n0 if n2 is None else n2} {n1 if n3 is None else n3}')
+        impl.append(guarded(lambda: ','.join(str(int(x)) for x in S.get_cvxpy_transpose0213_indexing(*a))))
+    # (b) the realignment of the input state(s) of is_ABk_symmetric_ext: single 2-d, 3-d array, list; exact (entries k/2^16)
+    T = 1 << 16
+    for dA, dB in (DIMS if ctx.quick() else DIMS + [(3, 2), (4, 2)]):
+        N = dA * dB
+        ms = [_herm_int_dominant(rng, N, T) for _ in range(3)]
+        for form, arg in (('single', ms[0] / T), ('array', np.stack(ms) / T), ('list', [m / T for m in ms[:2]])):
+            log = []
+
+            def stub(dimA, dimB, kext, use_boson, use_ppt, cvx_rho=None, log=log):
+                _recording_parameter(cvx_rho, log)
+                return [], []
+
+            def f():
+                with patched((S, '_ABk_symmetric_extension_setup', stub)):
+                    r = S.is_ABk_symmetric_ext(arg, (dA, dB), 2)
+                return r
+            r = guarded(f)
+            want = {'single': 1, 'array': 3, 'list': 2}[form]
+            shape_ok = (not isinstance(r, str)) and ((np.ndim(r) == 0) if form == 'single' else (np.shape(r) == (want,)))
+            for i in range(want):
+                ops.append(f'C06 sxrealign {dA} {dB} {gints(ms[i])}')
+                if isinstance(r, str):
+                    impl.append(r)
+                elif len(log) != want or not shape_ok:
+                    impl.append(f'error:shape({len(log)} values recorded, result shape {np.shape(r)})')
+                else:
+                    v = log[i] * T
+                    impl.append(gints(v) if np.array_equal(v, np.round(v.real) + 1j * np.round(v.imag)) else 'error:not-integral')
+    # (c) get_ABk_symmetric_extension_boundary: the direction handed to the SDP is the realigned normalised traceless part (permutation
+    #     from the model, float arithmetic as in the source), and the affine expression `eye/(dA dB) + beta*R` at dyadic beta
+    close_items = []
+    for dA, dB in (DIMS if ctx.quick() else DIMS + [(3, 2), (4, 2)]):
+        N = dA * dB
+        hs = []
+        for _ in range(2):
+            h = rng.normal(size=(N, N)) + 1j * rng.normal(size=(N, N)); h = h + h.conj().T
+            hs.append(h / np.trace(h).real if abs(np.trace(h).real) > 0.3 else h + np.eye(N) * (1 - np.trace(h).real) / N)
+        hs = [h - np.eye(N) * (np.trace(h).real - 1) / N if abs(np.trace(h).real - 1) > 1e-12 else h for h in hs]
+        for form, arg in (('single', hs[0]), ('array', np.stack(hs)), ('list', hs)):
+            log, hold = [], {}
+
+            def stub2(dimA, dimB, kext, use_boson, use_ppt, cvx_sigma=None, log=log, hold=hold):
+                hold['sigma'] = cvx_sigma
+                hold['rho'] = cvx_sigma.parameters()[0]; hold['beta'] = cvx_sigma.variables()[0]
+                _recording_parameter(hold['rho'], log)
+                return [], [hold['beta'] <= 1]
+
+            def f():
+                with patched((S, '_ABk_symmetric_extension_setup', stub2)):
+                    return S.get_ABk_symmetric_extension_boundary(arg, (dA, dB), 2)
+            r = guarded(f)
+            log = list(log)      # later assignments (evaluation of the affine expression below) are not part of the record
+            items = [hs[0]] if form == 'single' else hs
+            for i, h in enumerate(items):
+                posmat = np.arange(N * N).reshape(N, N)
+                op = f'C06 sxrealign {dA} {dB} {gints(posmat)}'
+                ops.append(op)
+                if isinstance(r, str):
+                    impl.append(r); continue
+                if len(log) != len(items):
+                    impl.append(f'error:{len(log)} values recorded'); continue
+                nrm = numqi.gellmann.dm_to_gellmann_norm(np.asarray(arg))
+                t = ((np.asarray(arg).reshape(-1, N, N) - np.eye(N) / N) / np.reshape(nrm, (-1, 1, 1)))[i]
+                where = {}
+                for pos, z in enumerate(t.reshape(-1)):
+                    where.setdefault((fbits(z.real), fbits(z.imag)), pos)
+                got = [where.get((fbits(z.real), fbits(z.imag)), -1) for z in log[i].reshape(-1)]
+                impl.append(';'.join(f'{g},0' for g in got))
+                # the affine expression at beta = ±2^k
+                for beta in ((0.5, -2.0) if ctx.quick() else (0.5, -2.0, 1.0, 0.03125)):
+                    hold['beta'].value = beta; hold['rho'].value = log[i]
+                    val = np.asarray(hold['sigma'].value, dtype=np.complex128)
+                    line = f'C06 extray {dA} {dB} {fbits(beta)} ' + ';'.join(f'{fbits(z.real)},{fbits(z.imag)}' for z in log[i].reshape(-1))
+                    close_items.append((line, val.reshape(-1), N))
+            if not isinstance(r, str):
+                ok = (np.ndim(r) == 0) if form == 'single' else (np.shape(r) == (len(items),))
+                ops.append(f'C06 idx0213 1 1 1 1'); impl.append('0' if ok and np.allclose(r, 1.0, atol=1e-6) else f'error:stub-result {r!r}')
+    model = common.run_model(ops)
+    common.compare(ctx, ops, impl, model)
+    # extray: exact where 1/(dA dB) is a double (the only rounding is the final one, and float(Fraction) rounds correctly);
+    # otherwise fl(1/N) differs from 1/N by at most 2^-54, the sum is rounded once more: 4e-16 absolute (entries are O(1))
+    out = common.run_model([x[0] for x in close_items])
+    for (line, val, N), o in zip(close_items, out):
+        ctx.count('extray')
+        try:
+            ex = _qilist(o)
+        except Exception:
+            ctx.disagree(line[:200], o[:200], 'a list of rationals'); continue
+        if len(ex) != len(val):
+            ctx.disagree(line[:200], f'{len(ex)} entries', f'{len(val)} entries'); continue
+        if N & (N - 1) == 0:
+            bad = [k for k, (e, z) in enumerate(zip(ex, val)) if float(e[0]) != z.real or float(e[1]) != z.imag]
+        else:
+            bad = [k for k, (e, z) in enumerate(zip(ex, val)) if abs(float(e[0]) - z.real) > 4e-16 or abs(float(e[1]) - z.imag) > 4e-16]
+        if bad:
+            k = bad[0]
+            ctx.disagree(line[:300] + '…', f'entry {k}: {float(ex[k][0])!r},{float(ex[k][1])!r}', f'entry {k}: {val[k]!r}')
+        else:
+            ctx.agree(line[:120], line[:120])
+    # (d) _ABk_symmetric_extension_setup: the reduced-state expression and the trace constraint at Gaussian-integer blocks; the
+    #     coefficient tensors (numerically derived, C05/C12 territory) enter the model as exact rationals of their doubles, the
+    #     model sums exactly, cvxpy in doubles: relative 1e-12
+    cases = [(2, 2, 2, False, False), (2, 2, 3, False, True), (2, 3, 2, False, False), (2, 3, 2, True, False)] + \
+        ([] if ctx.quick() else [(3, 2, 2, False, True), (2, 3, 3, False, False), (3, 3, 2, False, False), (2, 4, 2, True, True)])
+    lines, vals = [], []
+    for dA, dB, k, boson, ppt in cases:
+        def g():
+            cvxP, cons, rdm = S._ABk_symmetric_extension_setup(dA, dB, k, boson, ppt)
+            cf, ml = numqi.group.symext.get_symmetric_extension_irrep_coeff(dB, k)
+            if boson:
+                cf, ml = cf[:1], ml[:1]
+            blocks = []
+            if len(cvxP) != len(cf):
+                raise ValueError('block count')
+            for P, c, m in zip(cvxP, cf, ml):
+                x = c.shape[0]
+                if P.shape != (x * dA, x * dA):
+                    raise ValueError('block shape')
+                a = rng.integers(-3, 4, size=P.shape) + 1j * rng.integers(-3, 4, size=P.shape)
+                a = a + a.conj().T
+                P.value = a
+                cc = np.asarray(c, dtype=np.complex128).reshape(-1)
+                blocks.append(f'{x}:{gints(a)}:' + ';'.join(f'{fbits(z.real)},{fbits(z.imag)}' for z in cc) + f':{fbits(float(m))}')
+            return '|'.join(blocks), np.asarray(rdm.value, dtype=np.complex128).reshape(-1), complex(cons[-1].args[0].value)
+        r = guarded(g)
+        if isinstance(r, str):
+            ctx.count('irreprdm'); ctx.disagree(f'C06 irreprdm {dA} {dB} (kext={k}, boson={boson}, ppt={ppt})', 'a value', r); continue
+        lines.append(f'C06 irreprdm {dA} {dB} {r[0]}'); vals.append(r[1:])
+    out = common.run_model(lines) if lines else []
+    for line, (rv, tr), o in zip(lines, vals, out):
+        ctx.count('irreprdm')
+        try:
+            a, b = o.split('#'); ex = _qilist(a); et = _qilist(b)[0]
+        except Exception:
+            ctx.disagree(line[:200], o[:200], 'rdm#trace'); continue
+        scale = max(1.0, float(np.abs(rv).max()))
+        d = max([abs(complex(float(e[0]), float(e[1])) - z) for e, z in zip(ex, rv)] + [abs(complex(float(et[0]), float(et[1])) - tr)]) if len(ex) == len(rv) else float('inf')
+        ctx.extra['max_abs_diff_irreprdm'] = max(ctx.extra.get('max_abs_diff_irreprdm', 0.0), float(d))
+        if d <= 1e-12 * scale * 10:
+            ctx.agree(line[:120], line[:120])
+        else:
+            ctx.disagree(line[:300] + '…', f'model (exact) differs by {d:.3e}', f'scale {scale}')
+
+
 def _guarded_part(ctx, part, tie):
     """robustness of the check: an exception escaping a tie / probe part (signature change, missing attribute, shape error in the
     implementation …) is reported as a broken correspondence resp. as a failure with the traceback — the check never aborts (exit 2)"""
@@ -330,7 +662,7 @@ def _guarded_part(ctx, part, tie):
 
 
 def correspondence(ctx):
-    for part in (tie_boundaries, tie_interpolation, tie_cha):
+    for part in (tie_boundaries, tie_interpolation, tie_cha, tie_dicke, tie_symext):
         _guarded_part(ctx, part, tie=True)
 
 
@@ -971,8 +1303,320 @@ def probe_ordering(ctx):
                 ctx.probe_ok(('order', dA, dB, rep))
 
 
+def _bell_mix(dA, dB, p):
+    d = min(dA, dB)
+    v = np.zeros(dA * dB); v[[i * dB + i for i in range(d)]] = d ** -0.5
+    return p * np.outer(v, v) + (1 - p) * np.eye(dA * dB) / (dA * dB)
+
+
+class _solver_status:
+    """record `Problem.status` after every cvxpy solve inside the block (the library itself never looks at it)"""
+    def __enter__(self):
+        import cvxpy
+        self.log = []
+        self.orig = cvxpy.Problem.solve
+        rec = self
+
+        def solve(self_, *a, **k):
+            try:
+                return rec.orig(self_, *a, **k)
+            finally:
+                rec.log.append(self_.status)
+        cvxpy.Problem.solve = solve
+        return self
+
+    def __exit__(self, *a):
+        import cvxpy
+        cvxpy.Problem.solve = self.orig
+        return False
+
+
+def probe_sdp_shapes(ctx):
+    """the two SDP routines of the hierarchy on every documented input shape (2-d, 3-d array, list) and with return_info=True, options
+    use_ppt / use_boson:  batched == per item;  `vecA` is the boundary point (`beta` times the unit Gell-Mann vector of the direction),
+    `vecN` a unit normal of a hyperplane that supports the set (no product state beyond it);  the decision agrees with the boundary on
+    both sides;  the blocks returned with a positive decision are a certificate (positive, reduce to the state)."""
+    import numqi
+    E, S = numqi.entangle, numqi.entangle.symext
+    rng = np.random.default_rng(ctx.np_seed + 14)
+    cfg = [(2, 2, 2, False, False), (2, 2, 2, True, True), (2, 2, 3, False, False)] + \
+        ([] if ctx.quick() else [(2, 3, 2, False, False), (2, 3, 2, True, True), (2, 2, 3, True, False), (3, 2, 2, False, False)])
+    quiet = lambda: contextlib.redirect_stdout(io.StringIO())
+    for dA, dB, k, ppt, boson in cfg:
+        N = dA * dB
+        kw = dict(use_ppt=ppt, use_boson=boson)
+        dms = [rand_dm(rng, N), rand_direction_state(rng, N), _bell_mix(dA, dB, 0.9)]
+        rep = dict(op='sdp-shapes', dim=[dA, dB], kext=k, use_ppt=ppt, use_boson=boson, dms=[_mat_replay(d) for d in dms])
+        bad = []
+        try:
+            with quiet():
+                b1 = np.array([float(E.get_ABk_symmetric_extension_boundary(d, (dA, dB), k, **kw)) for d in dms])
+                b3 = E.get_ABk_symmetric_extension_boundary(np.stack(dms), (dA, dB), k, **kw)
+                bl = E.get_ABk_symmetric_extension_boundary(list(dms[:2]), (dA, dB), k, **kw)
+                bi, vA, vN = E.get_ABk_symmetric_extension_boundary(np.stack(dms), (dA, dB), k, return_info=True, **kw)
+                si = E.get_ABk_symmetric_extension_boundary(dms[2], (dA, dB), k, return_info=True, **kw)
+        except Exception as e:
+            ctx.fail('sdp-shapes-raised', f'get_ABk_symmetric_extension_boundary raised {type(e).__name__}: {e} on a documented input shape', rep); continue
+        ctx.count('sdp-boundary', 3 + 3 + 2 + 3 + 1)
+        if np.shape(b3) != (3,) or np.shape(bl) != (2,) or np.shape(bi) != (3,) or np.shape(vA) != (3, N * N - 1) or np.shape(vN) != (3, N * N - 1):
+            bad.append(f'shapes: array {np.shape(b3)}, list {np.shape(bl)}, info {np.shape(bi)} {np.shape(vA)} {np.shape(vN)}')
+        elif not (isinstance(si, tuple) and len(si) == 3 and np.ndim(si[0]) == 0 and np.shape(si[1]) == (N * N - 1,) and np.shape(si[2]) == (N * N - 1,)):
+            bad.append('single item with return_info: not (float, vector, vector)')
+        else:
+            d = max(np.abs(b3 - b1).max(), np.abs(bl - b1[:2]).max(), np.abs(bi - b1).max(), abs(float(si[0]) - b1[2]))
+            ctx.extra['sdp_batched_vs_single_max'] = max(ctx.extra.get('sdp_batched_vs_single_max', 0.0), float(d))
+            if d > SDP_TOL:
+                bad.append(f'batched / list / return_info boundary differs from the per-item one by {d:.3e}')
+            for i, dm in enumerate(dms):
+                g = numqi.gellmann.dm_to_gellmann_basis(dm)
+                want = bi[i] * g / np.linalg.norm(g)
+                if np.abs(vA[i] - want).max() > 1e-12 * max(1.0, abs(bi[i])):
+                    bad.append(f'item {i}: vecA is not beta times the unit Gell-Mann vector of the direction (max diff {np.abs(vA[i] - want).max():.3e})')
+                if abs(np.linalg.norm(vN[i]) - 1) > 1e-9 or np.abs(np.imag(vN[i])).max() > 0:
+                    bad.append(f'item {i}: vecN is not a real unit vector (norm {np.linalg.norm(vN[i])!r})')
+                # supporting hyperplane: the set contains the maximally mixed state and every product state
+                h = float(np.real(vN[i] @ vA[i]))
+                worst = -h
+                for _ in range(40):
+                    a = rng.normal(size=dA) + 1j * rng.normal(size=dA); b = rng.normal(size=dB) + 1j * rng.normal(size=dB)
+                    v = np.kron(a / np.linalg.norm(a), b / np.linalg.norm(b))
+                    worst = max(worst, float(np.real(vN[i] @ numqi.gellmann.dm_to_gellmann_basis(np.outer(v, v.conj())))) - h)
+                ctx.extra['sdp_normal_violation_max'] = max(ctx.extra.get('sdp_normal_violation_max', -1.0), worst)
+                if worst > SDP_TOL:
+                    bad.append(f'item {i}: a state of the set lies {worst:.3e} beyond the hyperplane (vecA, vecN)')
+            if np.abs(np.asarray(si[1]) - vA[2]).max() > SDP_TOL or np.abs(np.asarray(si[2]) - vN[2]).max() > 50 * SDP_TOL:
+                bad.append('single-item (vecA, vecN) differ from the batched ones')
+        if bad:
+            ctx.fail('sdp-boundary-shapes', f'({dA},{dB}) kext={k} use_ppt={ppt} use_boson={boson}: ' + '; '.join(bad[:3]), rep)
+            continue
+        ctx.probe_ok(('sdp-shapes', dA, dB, k, ppt, boson))
+        # --- the decision on both sides of the boundary, every input shape
+        margin = 0.02
+        bdm = [float(E.get_density_matrix_boundary(d)[1]) for d in dms]
+        inside = [E.hf_interpolate_dm(d, beta=max(b - margin, 0.5 * b)) for d, b in zip(dms, b1)]
+        outside = [E.hf_interpolate_dm(d, beta=b + margin) for d, b, m in zip(dms, b1, bdm) if b + margin < m * (1 - 1e-6)]
+        pts = inside + outside
+        want = [True] * len(inside) + [False] * len(outside)
+        rep2 = dict(op='sdp-decision', dim=[dA, dB], kext=k, use_ppt=ppt, use_boson=boson, states=[_mat_replay(d) for d in pts], expected=want,
+                    how='points at Gell-Mann distance beta_kext -/+ 0.02 on the rays of the states above')
+        try:
+            with quiet(), _solver_status() as st:
+                r1 = [E.is_ABk_symmetric_ext(x, (dA, dB), k, **kw) for x in pts]
+                r3 = E.is_ABk_symmetric_ext(np.stack(pts), (dA, dB), k, **kw)
+                rl = E.is_ABk_symmetric_ext(list(pts), (dA, dB), k, **kw)
+                ri = E.is_ABk_symmetric_ext(np.stack(pts), (dA, dB), k, return_info=True, **kw)
+                rs = E.is_ABk_symmetric_ext(pts[0], (dA, dB), k, return_info=True, **kw)
+            # a decision is held against the boundary only when the solver reported a clean status for that state in every call
+            # (is_ABk_symmetric_ext takes `optimal_inaccurate` as "extension exists": an observation, see design_notes/C06.md)
+            clean = [all(st.log[j * len(pts) + i] in ('optimal', 'infeasible') for j in range(4)) for i in range(len(pts))] \
+                if len(st.log) == 4 * len(pts) + 1 else [False] * len(pts)
+            if not all(clean):
+                ctx.count('sdp-decision-unclean-status', len(pts) - sum(clean))
+        except Exception as e:
+            ctx.fail('sdp-shapes-raised', f'is_ABk_symmetric_ext raised {type(e).__name__}: {e} on a documented input shape', rep2); continue
+        ctx.count('sdp-decision', 4 * len(pts) + 1)
+        bad = []
+        if not all(isinstance(x, (bool, np.bool_)) for x in r1):
+            bad.append('single item: not a bool')
+        if np.shape(r3) != (len(pts),) or np.shape(rl) != (len(pts),) or np.asarray(r3).dtype != bool:
+            bad.append(f'batched result: shape {np.shape(r3)} / {np.shape(rl)}, dtype {np.asarray(r3).dtype}')
+        elif any(c and not (bool(a) == bool(b) == bool(c_) == w) for c, a, b, c_, w in zip(clean, r1, r3, rl, want)):
+            bad.append(f'decisions single {[bool(x) for x in r1]}, array {[bool(x) for x in r3]}, list {[bool(x) for x in rl]}; the boundary says {want}')
+        if not (isinstance(ri, list) and len(ri) == len(pts) and all(isinstance(x, tuple) and len(x) == 2 for x in ri) and isinstance(rs, tuple) and len(rs) == 2):
+            bad.append('return_info=True: not one (decision, blocks) pair per item')
+        elif not bad:
+            cvxP, cons, rdm = S._ABk_symmetric_extension_setup(dA, dB, k, boson, ppt)
+            for i, ((dec, blocks), x) in enumerate(zip(list(ri) + [rs], pts + [pts[0]])):
+                if not (clean + [clean[0]])[i]:
+                    continue
+                if bool(dec) != (want + [want[0]])[i]:
+                    bad.append(f'item {i}: decision with return_info {dec}'); continue
+                if not dec:
+                    if blocks is not None:
+                        bad.append(f'item {i}: blocks returned with a negative decision')
+                    continue
+                if blocks is None or len(blocks) != len(cvxP) or any(np.shape(bk) != P.shape for bk, P in zip(blocks, cvxP)):
+                    bad.append(f'item {i}: blocks of the wrong shape'); continue
+                for P, bk in zip(cvxP, blocks):
+                    P.value = (np.asarray(bk) + np.asarray(bk).conj().T) / 2
+                res = np.abs(np.asarray(rdm.value) - x.reshape(dA, dB, dA, dB).transpose(0, 2, 1, 3).reshape(dA * dA, dB * dB)).max()
+                herm = max(np.abs(np.asarray(bk) - np.asarray(bk).conj().T).max() for bk in blocks)
+                mine = min(np.linalg.eigvalsh((np.asarray(bk) + np.asarray(bk).conj().T) / 2).min() for bk in blocks)
+                if ppt:
+                    for bk in blocks:
+                        xx = bk.shape[0] // dA
+                        mine = min(mine, np.linalg.eigvalsh(np.asarray(bk).reshape(dA, xx, dA, xx).transpose(0, 3, 2, 1).reshape(dA * xx, dA * xx)).min())
+                tr = abs(complex(cons[-1].args[0].value) - 1)
+                ctx.extra['sdp_certificate_residual_max'] = max(ctx.extra.get('sdp_certificate_residual_max', 0.0), float(res), float(-mine), float(tr))
+                if res > 1e-5 or herm > 1e-8 or mine < -1e-5 or tr > 1e-5:
+                    bad.append(f'item {i}: the returned blocks are not an extension certificate: reduction residual {res:.2e}, least eigenvalue {mine:.2e}, '
+                               f'trace constraint off by {tr:.2e}, non-Hermitian part {herm:.2e}')
+        if bad:
+            ctx.fail('sdp-decision-shapes', f'({dA},{dB}) kext={k} use_ppt={ppt} use_boson={boson}: ' + '; '.join(bad[:3]), rep2)
+        else:
+            ctx.probe_ok(('sdp-decision', dA, dB, k, ppt, boson))
+    # --- observation, not a failure (coordinator's ruling: the statement claims exact thresholds for the DM and PPT boundaries only):
+    #     just outside beta_kext SCS ends with `optimal_inaccurate` and is_ABk_symmetric_ext answers True; measured and recorded
+    phi = _bell_mix(2, 2, 1.0)
+    b2 = float(E.get_ABk_symmetric_extension_boundary(phi, (2, 2), 2))
+    x = E.hf_interpolate_dm(phi, beta=b2 + 10 * SDP_TOL)
+    with quiet(), _solver_status() as st:
+        dec, blocks = E.is_ABk_symmetric_ext(x, (2, 2), 2, return_info=True)
+    ctx.count('sdp-decision')
+    ctx.extra['symext_near_boundary_observation'] = dict(
+        state='Bell-state ray at beta_2ext + %g' % (10 * SDP_TOL), decision=bool(dec), status=st.log[-1] if st.log else None,
+        least_eigenvalue_of_returned_block=(float(min(np.linalg.eigvalsh(np.asarray(bk)).min() for bk in blocks)) if dec and blocks else None))
+    if (not dec) or (st.log and st.log[-1] != 'optimal'):
+        ctx.probe_ok(('sdp-decision-near', bool(dec)))
+    else:
+        # a clean `optimal` status beyond the boundary would contradict the library's own boundary by 10 solver tolerances
+        mine = min(np.linalg.eigvalsh(np.asarray(bk)).min() for bk in blocks)
+        ctx.fail('symext-decision-vs-boundary', f'is_ABk_symmetric_ext((2,2), kext=2) answers True with solver status optimal for the Bell-state ray at Gell-Mann '
+                 f'distance beta_2ext + {10 * SDP_TOL} (beta_2ext = {b2!r}); least eigenvalue of the returned block {mine:.2e}',
+                 dict(op='sdp-decision-near-boundary', dim=[2, 2], kext=2, state=_mat_replay(x), beta_2ext=b2, offset=10 * SDP_TOL))
+
+
+def probe_cha_bookkeeping(ctx):
+    """bookkeeping of the LP inner model (cha.py): `_cha_reset_state` (which states are replaced, by what) and the masks / history of
+    `CHABoundaryBagging.solve(return_info=True)` at non-default options (num_state given, num_init_retry=0)"""
+    import numqi
+    from numqi.entangle import cha as C
+    rng = np.random.default_rng(ctx.np_seed + 15)
+    unit = lambda a: a / np.linalg.norm(a, axis=1, keepdims=True)
+    for rep in range(6 if ctx.quick() else 30):
+        dA, dB = DIMS[rep % len(DIMS)]
+        K = int(rng.integers(3, 12))
+        ketA = unit(rng.normal(size=(K, dA)) + 1j * rng.normal(size=(K, dA))); ketB = unit(rng.normal(size=(K, dB)) + 1j * rng.normal(size=(K, dB)))
+        thr = 1e-3
+        prob = np.where(rng.random(K) < 0.4, rng.uniform(0, thr, size=K), rng.uniform(thr, 1, size=K))
+        if rep % 5 == 4:
+            prob = np.maximum(prob, 2 * thr)          # nothing to replace
+        if not (prob >= thr).any():
+            prob[0] = 0.5
+        indexR = None if rep % 3 else (rng.random(K) < 0.5)
+        bound = float(rng.choice([0.0, 0.05, 0.5, 1.0]))
+        seed = int(rng.integers(1 << 30))
+        replay = dict(op='_cha_reset_state', ketA=_mat_replay(ketA), ketB=_mat_replay(ketB), probability=prob.tolist(), threshold=thr, norm=bound,
+                      indexR=None if indexR is None else indexR.tolist(), seed=seed)
+        a0, b0, p0 = ketA.copy(), ketB.copy(), prob.copy()
+        try:
+            mask, newA, newB = C._cha_reset_state(ketA, ketB, prob, thr, bound, np.random.default_rng(seed), *(() if indexR is None else (indexR,)))
+        except Exception as e:
+            ctx.fail('cha-reset', f'_cha_reset_state raised {type(e).__name__}: {e}', replay); continue
+        low = p0 < thr
+        want = low if indexR is None else (low & indexR)
+        bad = []
+        if not (np.array_equal(ketA, a0) and np.array_equal(ketB, b0) and np.array_equal(prob, p0)):
+            bad.append('an input array was modified')
+        if want.sum() == 0:
+            if mask is not None or newA is not None or newB is not None:
+                bad.append('nothing is below the threshold but a replacement is returned')
+        elif mask is None or not np.array_equal(np.asarray(mask, dtype=bool), want):
+            bad.append(f'mask {None if mask is None else np.asarray(mask).tolist()} != (probability < threshold{"" if indexR is None else " and indexR"})')
+        elif np.shape(newA) != (want.sum(), dA) or np.shape(newB) != (want.sum(), dB):
+            bad.append(f'replacement shapes {np.shape(newA)}, {np.shape(newB)}')
+        else:
+            if np.abs(np.linalg.norm(newA, axis=1) - 1).max() > 1e-12 or np.abs(np.linalg.norm(newB, axis=1) - 1).max() > 1e-12:
+                bad.append('replacement kets are not unit vectors')
+            keep = np.nonzero(~low)[0]
+            # each replacement is a kept product state moved by unitaries with ||U - 1||_2 <= bound (|e^{ix} - 1| <= |x|), the same
+            # source index for both factors
+            dist = np.maximum(np.linalg.norm(newA[:, None, :] - a0[None, keep, :], axis=2), np.linalg.norm(newB[:, None, :] - b0[None, keep, :], axis=2)).min(axis=1)
+            if dist.max() > bound + 1e-12:
+                bad.append(f'a replacement is at distance {dist.max():.3e} > norm bound {bound} from every kept product state')
+        if bad:
+            ctx.fail('cha-reset', '; '.join(bad[:2]), replay)
+        else:
+            ctx.probe_ok(('cha-reset', rep % 5 == 4, indexR is None, bound))
+    # solve(return_info=True): masks and history at non-default options
+    done = 0
+    for trial in range(16):
+        if done >= (2 if ctx.quick() else 6):
+            break
+        dA, dB = (2, 2) if trial % 2 == 0 else (2, 3)
+        N = dA * dB
+        dm = rand_dm(rng, N)
+        seed = int(rng.integers(1 << 30)); num_state = 4 * N * N; maxiter = 3 + trial % 3
+        retry = 0 if trial % 2 == 0 else 2
+        replay = dict(op='CHABoundaryBagging.solve', dim=[dA, dB], num_state=num_state, dm=_mat_replay(dm), seed=seed, maxiter=maxiter, num_init_retry=retry)
+        try:
+            with contextlib.redirect_stdout(io.StringIO()), contextlib.redirect_stderr(io.StringIO()):
+                m = numqi.entangle.CHABoundaryBagging((dA, dB), num_state=num_state)
+                if retry == 0:       # warm start: num_init_retry=0 keeps the product states of the previous solve (a fresh object has none)
+                    m.solve(rand_dm(np.random.default_rng(seed), N), maxiter=1, seed=seed + 1)
+                beta, (ka, kb, lam, hist) = m.solve(dm, maxiter=maxiter, num_init_retry=retry, return_info=True, seed=seed)
+        except Exception as e:
+            ctx.count('cha-solver-raised-' + type(e).__name__); continue
+        done += 1
+        bad = []
+        if len(hist) != maxiter + 1 or beta != hist[-1]:
+            bad.append(f'history of length {len(hist)} for maxiter={maxiter}, beta {beta!r} vs last entry {hist[-1]!r}')
+        if not (len(ka) == len(kb) == len(lam) <= num_state) or np.shape(ka)[1:] != (dA,) or np.shape(kb)[1:] != (dB,):
+            bad.append(f'shapes {np.shape(ka)}, {np.shape(kb)}, {np.shape(lam)}')
+        else:
+            if (np.asarray(lam) <= 0).any():
+                bad.append('a returned weight is not positive')
+            if abs(float(np.sum(lam)) - 1) > 1e-6:
+                bad.append(f'the returned weights sum to {float(np.sum(lam))!r}')
+            if np.abs(np.linalg.norm(ka, axis=1) - 1).max() > 1e-9 or np.abs(np.linalg.norm(kb, axis=1) - 1).max() > 1e-9:
+                bad.append('a returned ket is not normalised')
+            if m.ketA.shape != (num_state, dA) or m.ketB.shape != (num_state, dB):
+                bad.append(f'state arrays {m.ketA.shape}, {m.ketB.shape} for num_state={num_state}')
+        if bad:
+            ctx.fail('cha-solve-bookkeeping', f'({dA},{dB}) num_state={num_state} num_init_retry={retry}: ' + '; '.join(bad[:2]), replay)
+        else:
+            ctx.probe_ok(('cha-solve-bookkeeping', dA, dB, retry))
+
+
+def probe_get_boundary_info(ctx):
+    """get_boundary of the inner models with return_info=True and non-default num_repeat / threshold / xtol: the history is the trace of a
+    consistent bisection (model `bisectLoop`, theorem bisectLoop_invariant): sorted, of the modelled length, every point below the
+    threshold left of every point above it, the returned length is the last mid-point and one of the two bracket ends, bracket width
+    beta_u / 2^m"""
+    import numqi
+    rng = np.random.default_rng(ctx.np_seed + 16)
+    models = [('PureBosonicExt(2,2,k=2)', lambda: numqi.entangle.PureBosonicExt(2, 2, kext=2, distance_kind='gellmann'), 4)] + \
+        ([] if ctx.quick() else [('AutodiffCHAREE(2,2)', lambda: numqi.entangle.AutodiffCHAREE((2, 2), distance_kind='gellmann'), 4),
+                                 ('PureBosonicExt(2,3,k=2)', lambda: numqi.entangle.PureBosonicExt(2, 3, kext=2, distance_kind='gellmann'), 6)])
+    for name, mk, N in models:
+        rho = rand_dm(rng, N, rank=2)
+        xtol, thr = (0.11 if ctx.quick() else 0.03), 1e-6
+        replay = dict(op=name + '.get_boundary', target=_mat_replay(rho), xtol=xtol, threshold=thr, num_repeat=2, seed=7, return_info=True)
+        try:
+            with contextlib.redirect_stdout(io.StringIO()):
+                beta, hist = mk().get_boundary(rho, xtol=xtol, threshold=thr, num_repeat=2, use_tqdm=False, return_info=True, seed=7)
+        except Exception as e:
+            ctx.fail('get-boundary-info', f'{name}.get_boundary(return_info=True) raised {type(e).__name__}: {e}', replay); continue
+        bu = float(numqi.entangle.get_density_matrix_boundary(rho)[1])
+        ratio = Fraction(bu) / Fraction(xtol)
+        m = int(common.run_model([f'C06 bisect {fbits(0.0)} {fbits(bu)} {ratio.numerator} {ratio.denominator} {fbits(bu)}'])[0].split(' ')[0])
+        hist = np.asarray(hist)
+        bad = []
+        if hist.shape != (m, 2):
+            bad.append(f'history of shape {hist.shape}, the model makes {m} steps')
+        else:
+            xs, ys = hist[:, 0], hist[:, 1]
+            lo = xs[ys < thr]; hi = xs[ys >= thr]
+            a = lo.max() if len(lo) else 0.0
+            b = hi.min() if len(hi) else bu
+            if (np.diff(xs) <= 0).any():
+                bad.append('history not sorted by position')
+            if a >= b:
+                bad.append(f'a point below the threshold ({a!r}) is not left of a point above it ({b!r})')
+            if beta not in (a, b):
+                bad.append(f'returned length {beta!r} is not an end of the final bracket [{a!r}, {b!r}]')
+            if abs((b - a) - bu / 2 ** m) > 1e-12:
+                bad.append(f'final bracket width {b - a!r} != beta_u / 2^{m} = {bu / 2 ** m!r}')
+            if not (0 < beta < bu):
+                bad.append(f'returned length {beta!r} outside (0, beta_u={bu!r})')
+        if bad:
+            ctx.fail('get-boundary-info', f'{name}: ' + '; '.join(bad[:2]), replay)
+        else:
+            ctx.probe_ok(('get-boundary-info', name))
+
+
 def probe(ctx):
-    for part in (probe_thresholds, probe_batched, probe_ray_invariance, probe_inner_models, probe_histories, probe_hardening, probe_cha_alive, probe_ordering):
+    for part in (probe_thresholds, probe_batched, probe_ray_invariance, probe_inner_models, probe_histories, probe_hardening, probe_cha_alive, probe_ordering, probe_sdp_shapes, probe_cha_bookkeeping, probe_get_boundary_info):
         _guarded_part(ctx, part, tie=False)
 
 
